@@ -1,5 +1,8 @@
 #!/usr/bin/env python3
 """C05 linearizable single-key operations under concurrency.
+B1 (schedules): lib/sched.py - TLC enumerates preemption-bounded interleavings of pairs and triples of single-key
+commands from their observed lock / map-access programmes (spec/Sched.tla, MC_Sched.tla); harness/cmd/sched replays each
+on the real code under a deterministic scheduler (gates at hooks H1/H2) and TraceLin decides every distinct history.
 B2: harness/cmd/conc runs many short histories (2-6 client goroutines x 1-6 commands on keys chosen to collide on lock
 stripes / map shards, seeded yields at every lock request) against one shared server through Manager.ExecCommand; each
 history, followed by a sequential read-back of every key, is checked for linearizability by TLC (spec/TraceLin.tla:
@@ -7,7 +10,7 @@ sequential meaning = Keyspace.Exec, just-in-time linearization over the set of c
 the driver checks key counter = stored keys, KEYS/EXISTS agreement, list link structure and lock hygiene; a churn
 workload (8-16 clients creating/deleting distinct keys while others run KEYS *) targets the shared key counter."""
 import concurrent.futures, json
-import common, ks, conc
+import common, ks, conc, sched
 
 tier = common.tier_arg()
 v = common.Verdict("C05")
@@ -42,7 +45,13 @@ with concurrent.futures.ThreadPoolExecutor(max_workers=8) as ex:
             first = _j.loads(open(path).readline())
             cov["samples"].append({"kind": "concurrent history (events in real-time order)", "events": conc.history_of(path, first["h"])[:24]})
 cov["traces_validated_against_impl"] = r["histories"]
+# B1 for schedules: TLC enumerates every interleaving with <= 2 preemptions (pairs) / <= 1 (triples) of the commands'
+# observed synchronisation programmes (spec/Sched.tla); each is realised on the real code with one goroutine running at
+# a time and the resulting history decided by TraceLin
+sr = sched.run("single", tier, seed, maxpre=2 if tier == "quick" else 3, maxpre3=1 if tier == "quick" else 2)
+sched.decide(sr, v, "C05", cov)
 v.finish(tier, "model_checking", cov, ["sequential meaning = spec/Keyspace.tla; atomic multi-key commands (MSET, RENAME, LMOVE, SMOVE) are single operations; KEYS and multi-key reads are only checked at quiescence",
                                        "tickets are taken before the call and after the return, so recorded real-time order under-approximates the real one (the check can only be more permissive)",
-                                       "schedules are those the Go scheduler produces under seeded yields at lock requests; the shared-counter race is searched statistically (churn workload)",
+                                       "random histories: schedules are those the Go scheduler produces under seeded yields at lock requests; the shared-counter race is searched statistically (churn workload)",
+                                       "deterministic schedules: preemption points are the stripe-lock requests and keyspace-map accesses (hooks H1/H2); code between two such points runs without interruption, so races inside one value object (list nodes, stream entries) that involve no map access are only reached by the random histories; true data races (unsynchronised memory access) need real parallelism and are also left to the random histories",
                                        "histories are short by design (<= 6 clients x 6 commands) so that TLC decides each exactly"])
